@@ -2,6 +2,7 @@
 import json
 import os
 import random
+import subprocess
 import sys
 from concurrent.futures import ThreadPoolExecutor
 
@@ -346,6 +347,13 @@ def check_c14(pid, tier, seed):
             d["strings"] += s["strings"]
             for k, v in s["by_outcome"].items():
                 d["by_outcome"][k] = d["by_outcome"].get(k, 0) + v
+    cli_texts = []
+    for o in outs[:4]:
+        for ln in open(o):
+            if ln.startswith('<<"GEN"') and len(cli_texts) < 40000:
+                g = json.loads(ln[len('<<"GEN", "'):-len('">>') - 1].replace('\\"', '"').replace("\\\\", "\\"))
+                if g.get("kind") == "fen":
+                    cli_texts.append(g["cps"])
     for o in outs:
         os.remove(o)
     res = tlc_many([dict(module="ChessTrace", trace=t, xmx="3g") for t in ptraces])
@@ -358,6 +366,34 @@ def check_c14(pid, tier, seed):
             text = "".join(chr(c) for c in w.get("text", []) if isinstance(c, int)) if isinstance(w.get("text"), list) else ""
             chk.violation("|".join([pid, w["kind"], w["parser"], w["profile"], text[:120]]),
                           "%s: %s parser, %s build, outcome %s on %r" % (w["kind"], w["parser"], w["profile"], w["outcome"], text[:120]), {"diag": d, "text": text, "trace": r["trace"]})
+    # 1b. the same FEN texts as the command line's --fen argument (`weechess display`): exit 0 or the error exit, never a crash
+    texts = [cps for cps in cli_texts if all(isinstance(c, int) and 0 < c < 0x110000 and not (0xD800 <= c <= 0xDFFF) for c in cps) and len(cps) < 4000]
+    rnd.shuffle(texts)
+    texts = texts[:(240 if quick else 6000)]
+
+    def display(cps):
+        try:
+            r = subprocess.run([cli, "display", "--fen=" + "".join(chr(c) for c in cps)], capture_output=True, timeout=20)
+            return "ok" if r.returncode == 0 else "err" if r.returncode == 1 else "exit %d: %s" % (r.returncode, r.stderr.decode("utf-8", "replace")[-120:])
+        except subprocess.TimeoutExpired:
+            return "hang"
+        except (ValueError, OSError) as ex:
+            return "err"      # the operating system refused the argument (embedded NUL, too long): nothing reached the program
+    with ThreadPoolExecutor(max_workers=NPROC) as ex:
+        outcomes = list(ex.map(display, texts))
+    cpath = os.path.join(wd, "parse_cli.ndjson")
+    with open(cpath, "w") as f:
+        for i in range(0, len(texts), 50):
+            f.write(json.dumps({"ev": "Parse", "kind": "cli-display", "profile": "release", "texts": texts[i:i + 50], "outcomes": outcomes[i:i + 50]}) + "\n")
+    summ["cli-display"] = {"strings": len(texts), "by_outcome": {k: outcomes.count(k) for k in set(outcomes)}}
+    res = tlc_many([dict(module="ChessTrace", trace=cpath, xmx="3g")])
+    chk.add_tlc(res)
+    for r in res:
+        for d in r["diags"]:
+            if d.get("prop") == pid:
+                w = d["what"]
+                text = "".join(chr(c) for c in w.get("text", []) if isinstance(c, int))
+                chk.violation("|".join([pid, w["kind"], w["parser"], text[:120]]), "%s: `weechess display --fen`, outcome %s on %r" % (w["kind"], w["outcome"], text[:120]), {"diag": d, "text": text, "trace": r["trace"]})
     # 2. the UCI loop: garbage lines inside model-generated sessions, still answering isready afterwards
     gens = gen_sequences(chk, wd, seed, 30 if quick else 800)
     sessions = []
